@@ -184,7 +184,10 @@ let do_seq line args res =
       s.st <- st';
       (* mirror the flights' GetTimestamp calls on the CAS-level system *)
       let usedn = int_of_nat used in
-      List.iteri (fun idx pd -> if idx < usedn then begin note_issue s pd; let t = sys_invoke s scope pd in sys_finish s t end) pds;
+      List.iteri (fun idx pd -> if idx < usedn then begin let t = sys_invoke s scope pd in sys_finish s t end) pds;
+      (* what PD has issued is taken from the implementation's own count of PD calls *)
+      (match res with _ :: iused :: _ -> let iu = (try int_of_string iused with _ -> 0) in
+         List.iteri (fun idx pd -> if idx < iu then note_issue s pd) pds | _ -> ());
       check_sys s line;
       cmp (vout_str o ^ "\t" ^ string_of_int usedn);
       (match res with
@@ -202,27 +205,31 @@ let do_seq line args res =
        | _ -> ())
   | ["S"; scope; prev; pd] ->
       let pd = parse_pd pd and prev = zh prev in
+      (match res with _ :: iused :: _ -> if iused <> "0" then note_issue s pd | _ -> ());
       (match get_last s.st (zh scope), res with
        | None, ir :: iused :: _ ->
-           note_issue s pd;
            let t = sys_invoke s scope pd in
            let (st', r) = get_ts s.st (zh scope) pd in
            s.st <- st'; sys_finish s t; check_sys s line;
            let m = (if r = None then "errpd" else "errscope") ^ "\t1" in
            if m <> ir ^ "\t" ^ iused then mismatch line m
-       | Some last, ir :: iused :: slack :: _ ->
-           let phys = extract_physical last in
-           let sec = zdiv phys (zh "3e8") in
-           if sec <=! prev then (if ir ^ "\t" ^ iused <> "errprev\t0" then mismatch line "errprev\t0")
-           else if String.length ir > 3 && String.sub ir 0 3 = "ok " && iused = "0" then begin
-             if (prev <! zh "200000000") && (phys <! zh "80000000000") then begin   (* time.Duration / UnixNano do not overflow *)
-               let v = zh (String.sub ir 3 (String.length ir - 3)) in
-               let lo = zsub phys (zmul prev (zh "3e8")) in
-               let hi = zadd lo (zh slack) in
-               let vp = extract_physical v in
-               prop "stale_ts_bounds" ((lo <=! vp) && (vp <=! hi) && zeq (extract_logical v) Z0) line ("expected physical in [" ^ hz lo ^ "," ^ hz hi ^ "]")
-             end else bump "S:overflow-skip"
-           end else mismatch line "ok <ts>\t0"
+       | Some last, ir :: iused :: _ ->
+           let sec = zdiv (extract_physical last) (zh "3e8") in
+           let m = if sec <=! prev then "errprev\t0" else "ok\t0" in
+           let impl = (if String.length ir > 3 && String.sub ir 0 3 = "ok " then "ok" else ir) ^ "\t" ^ iused in
+           if m <> impl then mismatch line m
+       | _ -> ());
+      (* bounds of the estimate, from the implementation's own cached value (4th result field) *)
+      (match res with
+       | ir :: _ :: slack :: ilr :: _ when String.length ir > 3 && String.sub ir 0 3 = "ok " && String.length ilr > 3 && String.sub ilr 0 3 = "ok " ->
+           let phys = extract_physical (zh (String.sub ilr 3 (String.length ilr - 3))) in
+           if (prev <! zh "200000000") && (phys <! zh "80000000000") then begin   (* time.Duration / UnixNano do not overflow *)
+             let v = zh (String.sub ir 3 (String.length ir - 3)) in
+             let lo = zsub phys (zmul prev (zh "3e8")) in
+             let hi = zadd lo (zh slack) in
+             let vp = extract_physical v in
+             prop "stale_ts_bounds" ((lo <=! vp) && (vp <=! hi) && zeq (extract_logical v) Z0) line ("expected physical in [" ^ hz lo ^ "," ^ hz hi ^ "]")
+           end else bump "S:overflow-skip"
        | _ -> ())
   | ["I"; ns] -> cmp (b01 (Z0 <! zh ns))
   | _ -> ()
@@ -255,9 +262,11 @@ let sf_state s =
   let outs = List.init s.nsp (fun t -> match voutcome_of s.vs (nat_of t) with
     | Some OAccept -> "accept" | Some (OReject c) -> "reject " ^ hz c | Some OErr -> "errpd"
     | Some OErrRange -> "errrange" | Some OErrLatest -> "errlatest" | None -> "blocked") in
-  String.concat ";" outs ^ "\t" ^ tsres s.vs.vlast
+  String.concat ";" outs ^ "\t" ^ tsres s.vs.vlast ^ "\t" ^ string_of_int (int_of_nat s.vs.vk)
+let sf_impl_k = ref 1    (* the implementation's PD counter after the previous step *)
 let do_sf line args res =
   let s = !sfs in
+  let remember_k () = (match res with _ :: _ :: ik :: _ -> (try sf_impl_k := int_of_string ik with _ -> ()) | _ -> ()) in
   let after_step () =
     let m = sf_state s in
     if m <> String.concat "\t" res then mismatch line m;
@@ -270,7 +279,7 @@ let do_sf line args res =
              match Hashtbl.find_opt s.begk t with
              | Some (bk, read) ->
                  let read = zh read in
-                 let kend = int_of_nat s.vs.vk in
+                 let kend = (match res with _ :: _ :: ik :: _ -> (try int_of_string ik with _ -> 0) | _ -> 0) in
                  if String.length o >= 6 && String.sub o 0 6 = "reject" then
                    prop "validate_accept_complete" (bk = 0 || (sf_pd s (nat_of (bk - 1)) <! read)) line ("validator " ^ string_of_int t ^ " began after " ^ string_of_int bk ^ " timestamps were issued")
                  else if o = "accept" && not (zeq read max_uint64) then
@@ -278,9 +287,9 @@ let do_sf line args res =
              | None -> ()
            end) (String.split_on_char ';' outs)
      | _ -> mismatch line "harness timeout") in
-  match args with
+  (match args with
   | ["begin"; _id; mode; base; stride] ->
-      incr ncases;
+      incr ncases; sf_impl_k := 1;
       let s = { vs = init_vsys (nat_of 8); modeE = (mode = "E"); base = zh base; stride = zh stride; begk = Hashtbl.create 8; nsp = 0; reported = Hashtbl.create 8 } in
       sfs := s;
       sf_ev s EIssueEnv; sf_ev s (EPublish O)
@@ -288,12 +297,13 @@ let do_sf line args res =
   | ["publish"] -> let i = s.vs.vk in sf_ev s EIssueEnv; sf_ev s (EPublish i); after_step ()
   | ["spawn"; _t; read; stale] ->
       let t = s.nsp in s.nsp <- t + 1;
-      Hashtbl.replace s.begk t (int_of_nat s.vs.vk, read);
+      Hashtbl.replace s.begk t (!sf_impl_k, read);
       sf_ev s (EBegin (nat_of t, zh read, stale = "1")); sf_quiesce s; after_step ()
   | ["release"; r] -> sf_release s (r = "ok"); after_step ()
   | ["cancel"; t] -> sf_ev s (ECancel (nat_of (int_of_string t))); sf_quiesce s; after_step ()
   | ["end"] -> while s.vs.flight <> None do sf_release s true done; after_step ()
-  | _ -> ()
+  | _ -> ());
+  remember_k ()
 
 (* ------------------------------------------------------------ class cw *)
 let expected_fuel ms =
